@@ -298,7 +298,7 @@ type c17Path struct {
 }
 
 var c17Leaves = []string{"str", "mapss", "ints", "array", "nilptr", "int", "mapsi", "ints12"}
-var c17Nest = []string{"mapany", "sliceany", "struct", "ptr", "ptrptr", "mapstruct", "ptrmap", "ptrslice", "embed", "clash", "hidden"}
+var c17Nest = []string{"mapany", "sliceany", "struct", "ptr", "ptrptr", "mapstruct", "ptrmap", "ptrslice", "embed", "clash", "hidden", "embedptr", "embedptrnil"}
 
 // c17Hidden: a field tagged json:"-" has no tag name ("-" is not one); its Go name reaches it.
 type c17Hidden struct {
@@ -316,6 +316,12 @@ type c17Clash struct {
 // c17Outer embeds c17Path: Field and Tagged (json:"tag") are promoted fields
 type c17Outer struct {
 	c17Path
+	Own string `json:"own"`
+}
+
+// c17OuterPtr embeds a pointer to c17Path: its fields are promoted like those of an embedded value
+type c17OuterPtr struct {
+	*c17Path
 	Own string `json:"own"`
 }
 
@@ -366,6 +372,10 @@ func c17Build(desc string) any {
 			v = c17Clash{Display: "display", Field: v}
 		case "hidden":
 			v = c17Hidden{Secret: "secret", Field: v}
+		case "embedptr":
+			v = c17OuterPtr{c17Path: &c17Path{Field: v, Tagged: v}, Own: "o"}
+		case "embedptrnil":
+			v = &c17OuterPtr{Own: "o"}
 		case "embed":
 			v = c17Outer{c17Path: c17Path{Field: v, Tagged: v}, Own: "o"}
 		case "mapstruct":
